@@ -1,3 +1,15 @@
 import Uflow.Props.C15
 open Uflow.Props.C15
 #print axioms C15_empty_group_noop
+#print axioms C15_unknown_frame_noop
+#print axioms C15_bad_nonce_noop
+#print axioms C15_accept_sound
+#print axioms C15_acked_fragments_sound
+#print axioms C15_replay_noop
+#print axioms C15_log_preserved
+#print axioms C15_accept_marks_acked
+#print axioms C15_idempotent
+#print axioms C15_window_stale_noop
+#print axioms C15_no_trap_partial
+#print axioms C15_ackInv_init
+#print axioms C15_ackInv_push
